@@ -20,13 +20,13 @@ CHECKS = {
               note="Trusts the IR interpreter and device model in /verif (assumptions A1-A3), xDSL 0.70 + irdl_options shim instead of the pinned xDSL commit; bounds: <=24 statements, nesting<=3, <=2 accelerators x <=6 fields, trip counts 0..4 and 9.",
               tech="deterministic simulation of the emitted accfg program (reference vs deduplicated) with seeded clobber/latency faults; history refinement oracle", ref="5 C01"),
  "C04": dict(text="Seeded search over (accelerator configuration, accfg program) pairs: the register map comes from generate_acc_op() of the current tree for seeded streamer configurations of every accelerator class; the program is lowered by convert-accfg-to-csr and executed on a CSR-level device model (registers by address, launch/busy/barrier conventions, RoCC decoder) next to the accfg-level reference under clobber, latency and CSR-garbage faults. Compared: per-field write history through the declared map, register snapshot by address at every launch (where a non-injective map shows), await behaviour, RoCC operand pairs, and that no accfg value survives.",
-              note="Trusts the CSR device model written from the docstrings in accelerators/snax.py (polling conventions, status registers at launch_streamer+1/+2, clearing write 0x3c5 for hwpe_mult); barrier styles 2 and 4 (unused by any accelerator class of the repo) are exercised through synthetic accelerators defined in /verif; gemmx mult_vals launches are not generated; PHS accelerator built with a duck-typed PE/template; values compared mod 2^32 / 2^64.",
+              note="Open known finding KF-C04-1 (the per-channel gemmx launch lowering writes tracked fields behind the state tracking) is attributed by a counterfactual run of the reference model. Trusts the CSR device model written from the docstrings in accelerators/snax.py (polling conventions, status registers at launch_streamer+1/+2, clearing write 0x3c5 for hwpe_mult); barrier styles 2 and 4 (unused by any accelerator class of the repo) are exercised through synthetic accelerators defined in /verif; gemmx mult_vals launches are not generated; PHS accelerator built with a duck-typed PE/template; values compared mod 2^32 / 2^64.",
               tech="deterministic simulation of the lowered CSR program against a device model with seeded latency / CSR-garbage / clobber faults; refinement of the accfg-level history through the declared register map", ref="5 C04"),
  "C11": dict(text="Seeded search (degenerate use of the simulator: one core, no interleaving; injected nondeterminism: L1 window, alignments, solver packing order, runtime shapes): (size) the size arithmetic emitted by memref-to-snax is executed with runtime shapes and compared with the highest byte an independent layout oracle says the layout touches; (place) functions with allocs, subviews, casts and uses in straight-line and nested code are lowered by memref-to-snax,canonicalize,snax-allocate in all four modes and executed on a memory with ownership shadow: uses stay inside their allocation, the window and the alignment, and buffers live at the same time never share addresses.",
-              note="The minimalloc solver is a stub (first-fit interval packer, seeded order): what is checked of the repo is the lifetime computation, address materialisation and size formula; uses touch first/last byte of their view; row-major 1-D buffers in the placement family; A8 for dynamic TSL steps.",
+              note="Open known finding KF-C11-1 (minimalloc restarts at offset 0 in every function) masks only overlaps between buffers of different functions. The minimalloc solver is a stub (first-fit interval packer, seeded order): what is checked of the repo is the lifetime computation, address materialisation and size formula; uses touch first/last byte of their view; row-major 1-D buffers in the placement family; A8 for dynamic TSL steps.",
               tech="deterministic simulation of the allocated program on a memory with ownership shadow; seeded windows / alignments / solver answers (no schedule/fault dimension)", ref="5 C11"),
  "C12": dict(text="Seeded search (degenerate use of the simulator: one core, no interleaving): functions with arguments, allocs and kernels in loops are compiled with set-memory-space,realize-memref-casts and executed on symbolic buffer contents next to the uncompiled reference (kernels operate on the arguments directly): every kernel must read the provenance the reference read, the arguments must end equal, every kernel operand must be in L1, argument types keep L3, and the output must respect SSA dominance. Constants and globals re-laid-out at compile time are decoded byte by byte with an independent layout oracle.",
-              note="Data failures are judged only when every cast value is first read (or never read): programs that first write then read an argument through its cast are reported as OBSERVATION, because the statement words the copy-in as 'before its first reader'. alloc-to-global is not exercised; RemoveTransposeConstants is applied as a rewrite pattern (its pass shells out to mlir-opt). Buffers of 4 elements, <= 12 kernels, loop nesting <= 2, trips 0..2.",
+              note="Open known finding KF-C12-1 (no copy-in for an accumulating output; enshrined in upstream's realize-memref-casts.mlir) masks only cases whose first wrong kernel is an accumulating one. Data failures are judged only when every cast value is first read (or never read): programs that first write then read an argument through its cast are reported as OBSERVATION, because the statement words the copy-in as 'before its first reader'. alloc-to-global is not exercised; RemoveTransposeConstants is applied as a rewrite pattern (its pass shells out to mlir-opt). Buffers of 4 elements, <= 12 kernels, loop nesting <= 2, trips 0..2.",
               tech="deterministic simulation of reference vs compiled program on symbolic buffer contents; provenance refinement + static dominance/memory-space oracles (no schedule/fault dimension)", ref="5 C12"),
  "C13": dict(text="Seeded search over schedules: the function produced by insert-sync-barrier (optionally followed by dispatch-regions) is executed by 2-4 simulated cores on shared symbolic memory; a seeded scheduler decides every interleaving, stall and DMA/kernel burst split. A barrier-epoch race monitor checks every memory cell online, the barrier model detects deadlock, and final buffer contents plus everything each copy/kernel read are compared with the sequential single-core reference. A quarter of the cases runs the static-allocation slice of the snaxc pipeline (insert-sync-barrier, memref-to-snax, canonicalize, snax-allocate{minimalloc}, insert-sync-barrier) on address-indexed memory, so that a buffer whose address is handed out again is protected only by the barrier in front of its dealloc.",
               note="Trusts the cluster model in /verif (A4-A6: non-atomic multi-burst copies/kernels, all-core barrier, collective allocs), whole buffers and (30% of cases) subviews of one allocation, streaming regions, multi-block functions, late allocations / explicit deallocs with address reuse (minimalloc replaced by a first-fit packer); buffers of 4 elements, <=16 statements, nesting<=3, trip counts 0..3.",
@@ -41,7 +41,7 @@ CHECKS = {
               note="No interleaving or fault enters this property (evidence reports distinct_interleavings = 1); trusts the interpreter; bounds: depth <= 3, constant bounds <= 8, dynamic bounds <= 5. Known-finding triggers mask effect-trace mismatches only in programs containing an imperfect constant-bound nest (KF-C17-1) or alloc(dim(subview[affine.min])) (KF-C17-2).",
               tech="deterministic simulation of original vs restructured loop nest on one core; effect-trace equality (no schedule/fault dimension)", ref="5 C17"),
  "C05": dict(text="Seeded search (degenerate use of the simulator: one core, no interleaving; the only injected nondeterminism is buffer placement and the row order of 2-D DMA transfers): a memref.copy between two seeded layouts is lowered by snax-copy-to-dma and executed on a byte-addressed memory with the runtime's DMA semantics; every DMA byte is checked online against the source/destination footprints and afterwards every logical element must sit at the address an independent layout oracle assigns to it.",
-              note="Trusts the DMA model (A7, snax_rt.h) and the layout oracle written from ir/tsl/README.md; dynamic TSL steps follow A8; <= 512 elements, rank <= 4, tile depth <= 3; layouts are injective and source/destination disjoint by construction.",
+              note="Open known finding KF-C05-1 (common-block search continues past dynamic strides; enshrined in upstream's copy_to_dma.mlir) is attributed by re-running the case with the search stopped at dynamic strides. Trusts the DMA model (A7, snax_rt.h) and the layout oracle written from ir/tsl/README.md; dynamic TSL steps follow A8; <= 512 elements, rank <= 4, tile depth <= 3; layouts are injective and source/destination disjoint by construction.",
               tech="deterministic simulation of the emitted DMA loop nest on a byte memory with footprint shadows; seeded placement and burst order (no schedule/fault dimension)", ref="5 C05"),
  "C06": dict(text="Seeded search as C01 with the subject accfg-config-overlap applied to traced / deduplicated programs, compared against its own input only on environments where that input was right and its state links truthful; also static SSA dominance and run-time undefined-value detection. One genuine defect is recorded as known finding KF-C06-1.",
               note="As C01; large latencies make moved setups execute inside the accelerator's busy window (probe setup-while-busy); known finding KF-C06-1 masks launch-snapshot mismatches only in programs whose loop body has two setups of one accelerator followed by a later setup of it, with dedup before overlap.",
